@@ -145,7 +145,10 @@ def sexpr_to_term(text, holes=()):
             pos += 1
             while toks[pos] != ")":
                 it, pos = parse(pos)
-                items.append(it)
+                if isinstance(it, Term) and it.head == "cat" and isinstance(it.args[0], str) and it.args[0].strip() == "":
+                    items.extend(it.args[1:])          # ' '.join(parts) spliced into the enclosing list
+                else:
+                    items.append(it)
             return Term("sx", *items), pos + 1
         return atom(toks[pos]), pos + 1
     if not toks:
@@ -500,6 +503,8 @@ class Interp(object):
                 s, name = f[1], f[2]
                 if name == "format":
                     return fmt_to_term(s, args, kwargs)
+                if name == "join" and len(args) == 1 and _is_sym(args[0]) and not isinstance(args[0], Term):
+                    return Term("cat", s, *list(args[0]))
                 if _is_sym(args):
                     raise Undetermined("str.%s with symbolic argument" % name)
                 return getattr(s, name)(*args)
@@ -520,6 +525,8 @@ class Interp(object):
                     r = {"len": len, "list": list, "tuple": tuple, "reversed": lambda x: list(reversed(x)), "enumerate": lambda *a: list(enumerate(*a)),
                          "zip": lambda *a: list(zip(*a)), "sorted": sorted, "sum": sum, "range": lambda *a: list(range(*a)), "min": min, "max": max}[name](*args)
                     return r
+                if name == "str" and len(args) == 1 and isinstance(args[0], Term):
+                    return args[0]            # the text of a symbolic string is that string
                 if any(isinstance(a, Term) for a in args):
                     raise Undetermined("%s of a symbolic value" % name)
                 return {"int": int, "str": str, "abs": abs, "hex": hex, "bool": bool}[name](*args)
